@@ -105,10 +105,21 @@ impl DnV {
 pub struct Dn(pub Vec<(DnT, DnV)>);
 
 impl Dn {
+	/// the real name, built the way callers build names: by `push`, and — so that every
+	/// sweep also passes through `remove` — with a scratch attribute pushed first and removed
+	/// last (the name a caller ends up with is the same; an emptied name is still empty)
 	pub fn real(&self) -> Option<DistinguishedName> {
 		let mut dn = DistinguishedName::new();
+		let scratch = DnType::CustomDnType(vec![2, 5, 4, 65]);
+		let use_scratch = !self.0.iter().any(|(t, _)| t.real() == scratch);
+		if use_scratch {
+			dn.push(scratch.clone(), DnValue::Utf8String("scratch".into()));
+		}
 		for (t, v) in &self.0 {
 			dn.push(t.real(), v.real()?);
+		}
+		if use_scratch {
+			dn.remove(scratch);
 		}
 		Some(dn)
 	}
